@@ -192,14 +192,54 @@ func (c ctx) defKey(kjs string, k M.Key, d dsc, class string) op {
 }
 
 func (c ctx) def(i uint64, d dsc) op { return c.defKey(c.key(i), mkey(i), d, "define-index") }
-func (c ctx) defLen(d dsc) op        { return c.defKey(`"length"`, lenKey, d, "define-length") }
+func (c ctx) defLen(d dsc) op {
+	o := c.defKey(`"length"`, lenKey, d, "define-length")
+	o.detail = lenDetail(func(w *M.World) M.Val {
+		if dd := d.mk(w); dd.HasValue {
+			return dd.Value
+		}
+		return nil
+	})
+	return o
+}
+
+// lenDetail classifies a length write by where the highest non-configurable element sits relative to
+// the new length (the boundary cases of ArraySetLength).
+func lenDetail(v func(w *M.World) M.Val) func(w *M.World, a *M.Obj) string {
+	return func(w *M.World, a *M.Obj) string {
+		if a.Kind != M.KArray || v == nil {
+			return ""
+		}
+		x := v(w)
+		if x == nil {
+			return "[attributes only]"
+		}
+		if _, isObj := x.(*M.Obj); isObj {
+			return ""
+		}
+		n := M.ToNumber(x)
+		if n < 0 || n != float64(uint32(n)) {
+			return "[invalid length]"
+		}
+		keys := a.IndexKeys()
+		for i := len(keys) - 1; i >= 0 && float64(keys[i]) >= n; i-- {
+			if !a.GetOwn(M.IdxKey(keys[i])).C {
+				if float64(keys[i]) == n {
+					return "[non-configurable element at the new length]"
+				}
+				return "[non-configurable element above the new length]"
+			}
+		}
+		return ""
+	}
+}
 
 func (c ctx) setLen(v val) op {
 	if c.reflect {
-		return op{js: `Reflect.set(a,"length",` + v.js + ")", class: "set-length",
+		return op{js: `Reflect.set(a,"length",` + v.js + ")", class: "set-length", detail: lenDetail(v.mk),
 			model: func(w *M.World, a *M.Obj) M.Val { return w.Set(a, lenKey, v.mk(w), a) }}
 	}
-	return op{js: "a.length=" + v.js, class: "set-length",
+	return op{js: "a.length=" + v.js, class: "set-length", detail: lenDetail(v.mk),
 		model: func(w *M.World, a *M.Obj) M.Val { x := v.mk(w); w.SetThrow(a, lenKey, x); return x }}
 }
 
